@@ -355,7 +355,10 @@ Lemma char_body_ok : forall d, ok b (char_body d).
 Proof. intros d. unfold char_body. destruct (to_integer (VNum d)); exact I. Qed.
 
 Lemma repeat_body_ok : forall t n, ok b (repeat_body t n).
-Proof. intros t n. unfold repeat_body. destruct (n <? 0); [exact I|]. destruct t; exact I. Qed.
+Proof.
+  intros t n. unfold repeat_body. destruct (n <? 0); [exact I|]. destruct t; [exact I|].
+  destruct (max_repeat_length <? _); exact I.
+Qed.
 
 Lemma replace_body_ok : forall args, (3 <= length args <= 4)%nat -> ok b (replace_body args).
 Proof.
@@ -1120,6 +1123,25 @@ Proof.
   - destruct (IH (out ++ t) (cells + N.of_nat (length t))%N) as [H1 H2]. rewrite H1, H2, app_length. split; lia.
 Qed.
 
+(* repeat never builds more than max_repeat_length characters; beyond that it answers with an error VALUE
+   (`repeat("x", 2147483647)` used to exhaust the memory of the host) *)
+Lemma repeat_body_bounded : forall t count s, repeat_body t count = Ret (VText s) -> zlen s <= max_repeat_length.
+Proof.
+  intros t count s. unfold repeat_body. destruct (count <? 0) eqn:En; [discriminate|]. apply Z.ltb_ge in En.
+  destruct t as [|c t]; [intros H; injection H as <-; unfold zlen, max_repeat_length; simpl; lia|].
+  destruct (max_repeat_length <? zlen (c :: t) * count) eqn:El; [discriminate|]. apply Z.ltb_ge in El.
+  intros H. injection H as <-. unfold zlen in *.
+  destruct (repeat_loop_spec (c :: t) (Z.to_nat count) [] 0%N) as [H1 _]. rewrite H1. simpl length in *.
+  rewrite Nat2Z.inj_mul, Z2Nat.id by assumption. lia.
+Qed.
+
+Lemma repeat_body_over_limit : forall t count, t <> [] -> max_repeat_length < zlen t * count -> repeat_body t count = Ret VErr.
+Proof.
+  intros t count Ht H. unfold repeat_body.
+  destruct (count <? 0) eqn:En; [reflexivity|]. destruct t as [|c t]; [contradiction|].
+  replace (max_repeat_length <? zlen (c :: t) * count) with true by (symmetry; apply Z.ltb_lt; assumption). reflexivity.
+Qed.
+
 Definition work_constant : N := 408%N.
 
 Section Work.
@@ -1200,9 +1222,10 @@ Proof.
     destruct (to_text a0) as [t|] eqn:Et; [|unfold work_constant; lia].
     destruct (to_integer a1) as [count|] eqn:Ec; [|unfold work_constant; lia].
     destruct (count <? 0) eqn:En; [unfold work_constant; lia|]. destruct t as [|c t]; [unfold work_constant; lia|].
+    destruct (max_repeat_length <? zlen (c :: t) * count) eqn:El; [unfold work_constant; lia|].
     assert (Hr : call_function FRepeat [a0; a1] = Ret (VText (fst (repeat_loop (c :: t) (Z.to_nat count) [] 0%N)))).
     { unfold ExEval.call_function. simpl. unfold text_and_integer_function, num_args, min_max_args, with_arg. simpl.
-      rewrite Et, Ec. unfold repeat_body. rewrite En. reflexivity. }
+      rewrite Et, Ec. unfold repeat_body. rewrite En, El. reflexivity. }
     rewrite Hr. simpl res_size. unfold value_size. simpl render_value.
     destruct (repeat_loop_spec (c :: t) (Z.to_nat count) [] 0%N) as [H1 H2]. rewrite H1, H2.
     unfold work_constant. simpl length. lia.
